@@ -134,6 +134,20 @@ def cases(draw, cfg_kw=None):
     if draw(st.integers(0, 2)) == 0:
         kw['schema'] = 'plain'
     api = draw(gen.api_models(gen.Cfg(**kw)))
+    # an alias chain over three namespaces: a imports b imports c, a does not import c; the class an alias
+    # of a stands for is then defined two modules away
+    byname = {n['name']: n for n in api['namespaces']}
+    triples = [(a, byname[bn], byname[cn]) for a in api['namespaces'] for bn in a['imports'] for cn in byname[bn]['imports']
+               if cn not in a['imports'] and cn != a['name']]
+    if triples and draw(st.integers(0, 1)):
+        a, b, c = draw(st.sampled_from(triples))
+        users = [d for d in c['defs'] if d['k'] in ('struct', 'union')]
+        taken_b = {M.canon(d.get('name', '')) for d in b['defs']} | {M.canon(b['name'])}
+        taken_a = {M.canon(d.get('name', '')) for d in a['defs']} | {M.canon(a['name'])}
+        if users and 'zztint' not in taken_b and 'zzshade' not in taken_a:
+            u = draw(st.sampled_from(users))
+            b['defs'].append({'k': 'alias', 'name': 'ZzTint', 'type': ('ref', c['name'], u['name']), 'doc': None, 'annots': []})
+            a['defs'].append({'k': 'alias', 'name': 'ZzShade', 'type': ('alias', b['name'], 'ZzTint'), 'doc': None, 'annots': []})
     idx = M.Index(api)
     costs = values.Costs(idx)
     docs = {}
@@ -243,4 +257,4 @@ def run(case, rec):
 
 
 def parts(ctx):
-    return [Part('surface', run, strategy=cases(), n=ctx.n(96, 3000), budget_s=ctx.n(150, 3000))]
+    return [Part('surface', run, strategy=cases(), n=ctx.n(176, 3000), budget_s=ctx.n(150, 3000))]
